@@ -56,7 +56,14 @@ def delivery_checks(case, obs, out, strict_positions=True):
             if e["kind"] != "deliver":
                 continue
             prior = [t for t in leaves.get(tag, []) if t + 0.001 < e["t"]]
-            if prior and not any(prior[-1] < t <= e["t"] for t in ab):
+            # the coordination routine reacts to the leave once the request it is waiting for returns: an
+            # auto-commit in flight, then (pattern subscribers) a metadata refresh that precedes join-prepare;
+            # until then the old assignment is still being served
+            md_wait = bool(prior) and any(
+                x.client_id == tag and x.api in ("metadata", "offset_commit", "find_coordinator") and
+                x.t_written is not None and x.t_written <= e["t"] and (x.t_end is None or x.t_end >= e["t"] - 0.001)
+                for x in c.arrivals)
+            if prior and not md_wait and not any(prior[-1] < t <= e["t"] for t in ab):
                 out.fail("revoked_silent", "record_after_leaving_group", {"member": tag, "tp": e["tp"], "offset": e["offset"],
                                                                           "left_at": prior[-1], "delivered_at": e["t"]})
                 break
@@ -191,7 +198,8 @@ def evaluate(case, obs):
                 out.fail("adopts_sent", "callback_partitions_differ_from_sync_reply", {"member": tag, "sent": sent, "callback": e["tps"],
                                                                                       "generation": a.body["generation"]})
             if end:
-                later_sub = any(e["t"] <= s["t"] <= end[0]["t"] for s in subs_ev)
+                later_sub = any(e["t"] <= s["t"] <= end[0]["t"] for s in subs_ev) or \
+                    any(a.t_written - 1e-9 <= t <= end[0]["t"] + 1e-9 for t in c06.metadata_change_times(c, tag))
                 stopping = any(x["kind"] == "stop_call" and x["t"] <= end[0]["t"] for x in evs)
                 if sorted(end[0]["after"]) != sent and not later_sub and not stopping:
                     out.fail("adopts_sent", "assignment_after_callback_differs", {"member": tag, "sent": sent, "assignment()": end[0]["after"]})
